@@ -112,6 +112,7 @@ Inductive pk : Type :=
 | PkElem         (* reflect: Elem of a type that has none *)
 | PkIndex        (* Go index out of range *)
 | PkIsNil        (* reflect: IsNil of a non-nilable value *)
+| PkConvert      (* reflect.Value.Convert: value cannot be converted *)
 | PkIllTyped.    (* a reflect.Value whose data does not fit its type: excluded by Go's typing *)
 
 Inductive nres (A : Type) : Type :=
@@ -184,8 +185,22 @@ Definition to_int (w : width) (x : fnum) : Z :=
   | WP => f2i64 x
   end.
 
-(* uintN(int64(x)) *)
-Definition to_uint (w : width) (x : fnum) : Z := wrap_u (wbits w) (f2i64 x).
+(* functions.go toUint64: numbers in [2^63, 2^64) are converted directly (truncation);
+   everything else goes through int64: negative numbers wrap modulo 2^64, and what does not
+   fit int64 (x < -2^63, x >= 2^64, NaN, +-Inf) gives uint64(-2^63) = 2^63. *)
+Definition to_uint64 (x : fnum) : Z :=
+  match x with
+  | FFin m e => let t := ftrunc m e in
+                if (two63 <=? t) && (t <? two64) then t else wrap_u 64 (f2i64 x)
+  | _ => wrap_u 64 (f2i64 x)
+  end.
+
+(* uint64 and uint: toUint64(x); the narrower kinds: uintN(int64(x)) *)
+Definition to_uint (w : width) (x : fnum) : Z :=
+  match w with
+  | W64 | WP => to_uint64 x
+  | _ => wrap_u (wbits w) (f2i64 x)
+  end.
 
 (* Round the dyadic m*2^e to nearest-even with [prec] mantissa bits, least exponent
    [emin], overflow at 2^emax: float32(x) = fround 24 (-149) 128, and the
@@ -293,8 +308,8 @@ Definition check_results (rs : list ty) : option setup_err :=
 Definition check_native_func (name : bytes) (f : fval) : nres (option setup_err) :=
   if is_keyword name then NOk (Some EKeyword)
   else match f with
-       | FNil => NPanic PkNilType            (* reflect.TypeOf(nil) = nil; typ.Kind() on it *)
-       | FNonFunc => NOk (Some ENotFunc)
+       | FNil => NOk (Some ENotFunc)          (* typ == nil *)
+       | FNonFunc => NOk (Some ENotFunc)       (* typ.Kind() != reflect.Func *)
        | FFunc s _ =>
            ndo r <- check_params (variadic s) (zlen (params s)) 0 (params s);
            match r with
@@ -340,6 +355,7 @@ Definition resolver_index (funcs : list (bytes * fval)) (name : bytes) : Z :=
 
 Inductive parse_err : Type :=
 | PUndefined          (* undefined function %q *)
+| PNotFunc            (* native function %q is not a function *)
 | PTooMany.           (* %q called with more arguments than declared *)
 
 (* resolve.go:466-482 for a call name(args) with nargs arguments.  A function defined
@@ -350,8 +366,8 @@ Definition resolve_call (funcs : list (bytes * fval)) (awk_defined : list bytes)
   if mem_bytes name awk_defined then NOk None
   else match lookup name funcs with
        | None => NOk (Some PUndefined)
-       | Some FNil => NPanic PkNilType            (* typ.NumIn() on the nil reflect.Type *)
-       | Some FNonFunc => NPanic PkNonFunc        (* reflect: NumIn of non-func type *)
+       | Some FNil => NOk (Some PNotFunc)         (* typ == nil *)
+       | Some FNonFunc => NOk (Some PNotFunc)     (* typ.Kind() != reflect.Func *)
        | Some (FFunc s _) =>
            let num_params := if variadic s then 1000000000 else zlen (params s) in
            if num_params <? nargs then NOk (Some PTooMany) else NOk None
@@ -441,12 +457,16 @@ Definition from_native (v : gval) : nres value :=
   | KFloat32 | KFloat64 => match gdat v with DFloat x => NOk (VNum x) | _ => NPanic PkIllTyped end
   | KString => match gdat v with DStr s => NOk (VStr s) | _ => NPanic PkIllTyped end
   | KSlice =>
-      if ty_eqb (gty v) byte_slice            (* v.Interface().([]byte) *)
-      then match gdat v with
-           | DBytes s => NOk (VStr s)
-           | DNilSlice => NOk (VStr [])
-           | _ => NPanic PkIllTyped end
-      else NPanic PkRetSlice
+      match gty v with
+      | TSlice e _ =>
+          if is_uint8_kind (kind_of e)         (* v.Type().Elem().Kind() == reflect.Uint8: v.Bytes() *)
+          then match gdat v with
+               | DBytes s => NOk (VStr s)
+               | DNilSlice => NOk (VStr [])
+               | _ => NPanic PkIllTyped end
+          else NPanic PkRetSlice
+      | _ => NPanic PkIllTyped
+      end
   | KOther => NPanic PkRetType
   end.
 
@@ -507,19 +527,27 @@ Section Prims.
     | KString => NOk (GV (TString false) (DStr (v_str v)))
     | KSlice =>
         ndo e <- elem t;
-        if is_uint8_kind (kind_of e) then NOk (GV byte_slice (DBytes (v_str v)))
+        if is_uint8_kind (kind_of e) then NOk (GV t (DBytes (v_str v)))   (* reflect.MakeSlice(typ, ..) *)
         else NPanic PkArgSlice
     | KOther => NPanic PkArgType
     end.
 
-  (* functions.go:32-41: the loop over the AWK arguments *)
+  (* functions.go callNative: if arg.Type() != argType { arg = arg.Convert(argType) }.
+     Convert between types of identical underlying type keeps the data. *)
+  Definition convert_arg (v : gval) (t : ty) : nres gval :=
+    if ty_eqb (gty v) t then NOk v
+    else if ty_eqb (underlying (gty v)) (underlying t) then NOk (GV t (gdat v))
+    else NPanic PkConvert.
+
+  (* functions.go:32-46: the loop over the AWK arguments *)
   Fixpoint build_args (s : sig) (variadic_type : ty) (i : Z) (args : list value) : nres (list gval) :=
     match args with
     | [] => NOk []
     | a :: rest =>
         ndo arg_type <- (if negb (variadic s) || (i <? zlen (params s) - 1)
                          then nindex (params s) i else NOk variadic_type);
-        ndo v <- to_native a arg_type;
+        ndo v0 <- to_native a arg_type;
+        ndo v <- convert_arg v0 arg_type;
         ndo tl <- build_args s variadic_type (i + 1) rest;
         NOk (v :: tl)
     end.
